@@ -13,7 +13,10 @@ EXPLANATION = (
     "dispatcher answers false; (2) Generic and Timer forget their key when unregistered, on every successful path (with C01.5 an "
     "event collected before the disable is then ignored); (3) every wrapper source forwards unregister->unregister and "
     "register->register; (4) Timer::unregister does not touch the deadline, Timer::register arms from it, enable() registers "
-    "under the slot's own token."
+    "under the slot's own token; enable/disable/update always ask the dispatcher, and the dispatcher follows a state protocol: "
+    "register and unregister always ask the source, reregister asks it only on the 'registered' edge of a flag that register "
+    "sets (after the source registered), unregister clears and nothing else writes - update() on a disabled source cannot "
+    "re-arm it (F-C07-1)."
 )
 
 
